@@ -96,7 +96,7 @@ func (t *Table) ToMarkdown() string {
 	// Header row
 	for j, cell := range t.Rows[0] {
 		sb.WriteString("| ")
-		sb.WriteString(strings.ReplaceAll(cell.Text, "\n", " "))
+		sb.WriteString(escapeMarkdownCell(cell.Text))
 		sb.WriteString(" ")
 		if j == len(t.Rows[0])-1 {
 			sb.WriteString("|")
@@ -117,7 +117,7 @@ func (t *Table) ToMarkdown() string {
 	for i := 1; i < len(t.Rows); i++ {
 		for j, cell := range t.Rows[i] {
 			sb.WriteString("| ")
-			sb.WriteString(strings.ReplaceAll(cell.Text, "\n", " "))
+			sb.WriteString(escapeMarkdownCell(cell.Text))
 			sb.WriteString(" ")
 			if j == len(t.Rows[i])-1 {
 				sb.WriteString("|")
@@ -127,6 +127,13 @@ func (t *Table) ToMarkdown() string {
 	}
 
 	return sb.String()
+}
+
+// escapeMarkdownCell makes cell text safe inside a pipe table: newlines become
+// spaces and pipes are escaped so they do not start a new column.
+func escapeMarkdownCell(s string) string {
+	s = strings.ReplaceAll(s, "\n", " ")
+	return strings.ReplaceAll(s, "|", "\\|")
 }
 
 // ToCSV converts the table to CSV format
